@@ -6,7 +6,7 @@
 (* structural recursion over the tree (astconv JSON); it visits every child  *)
 (* of every node kind.  First(...) is the offending construct a              *)
 (* left-to-right, arguments-before-call walk meets first.                    *)
-EXTENDS Integers, Sequences, FiniteSets, TLC, Json, IOUtils
+EXTENDS Patterns, Json, IOUtils
 
 Programs == ndJsonDeserialize(IOEnv.PROG_FILE)
 
@@ -36,8 +36,8 @@ ShapeV1(f, as) ==
     [] f = "xml" -> N(as) = 3 /\ KeyName(as[1]) /\ IsStr(as[2]) /\ as[3].k \in {"attr", "id", "str"}
     [] f = "datetime" -> N(as) = 3 /\ KeyName(as[1]) /\ IsStr(as[2]) /\ IsStr(as[3])
     [] f = "default_time" -> N(as) >= 1 /\ KeyName(as[1]) /\ (N(as) > 1 => IsStr(as[2]))
-    [] f = "grok" -> N(as) \in {2, 3} /\ (N(as) = 3 => as[3].k = "bool") /\ KeyName(as[1]) /\ IsStr(as[2]) /\ PatternOK(as[2])
-    [] f = "add_pattern" -> N(as) = 2 /\ IsStr(as[1]) /\ IsStr(as[2]) /\ PatternOK(as[2])
+    [] f = "grok" -> N(as) \in {2, 3} /\ (N(as) = 3 => as[3].k = "bool") /\ KeyName(as[1]) /\ IsStr(as[2])
+    [] f = "add_pattern" -> N(as) = 2 /\ IsStr(as[1]) /\ IsStr(as[2])
     [] f = "use" -> N(as) = 1 /\ IsStr(as[1])
     [] f = "exit" -> TRUE
     [] f = "probe" -> TRUE
@@ -82,7 +82,9 @@ First(e, fns, v2, depth) ==
          IF ~(e.f \in fns) THEN e.nid
          ELSE LET inner == FirstIn(e.as, 1, fns, v2, depth)
               IN IF inner # 0 THEN inner
-                 ELSE IF (IF v2 THEN ShapeV2(e.f, e.as) ELSE ShapeV1(e.f, e.as)) THEN 0 ELSE e.nid
+                 ELSE IF ~(IF v2 THEN ShapeV2(e.f, e.as) ELSE ShapeV1(e.f, e.as)) THEN e.nid
+                 ELSE IF ~v2 /\ e.f \in {"grok", "add_pattern"} /\ ~e.res THEN e.nid      \* a pattern name defined nowhere in scope
+                 ELSE 0
     [] e.k = "if" -> (LET RECURSIVE Br(_)
                           Br(j) == IF j > Len(e.cs) THEN (IF e.he THEN FirstStmts(e.eb, 1, fns, v2, depth) ELSE 0)
                                    ELSE Seq2(First(e.cs[j], fns, v2, depth),
@@ -104,7 +106,7 @@ VARIABLE res
 Init == \E i \in 1..Len(Programs) :
           LET p == Programs[i]
               fns == (IF p.v2 THEN V2Fns ELSE V1Fns) \ ToSetS(p.without)
-              off == FirstStmts(p.scripts[p.main], 1, fns, p.v2, 0)
+              off == FirstStmts(Annotate(p.scripts[p.main]), 1, fns, p.v2, 0)
           IN res = [id |-> p.id, accept |-> off = 0, nid |-> off]
 Next == UNCHANGED res
 Spec == Init /\ [][Next]_res
